@@ -155,6 +155,19 @@ def lit_same(a, b):
     return a == b
 
 
+def names_path(msg, keys):
+    """Does the message name the path?  Tolerant of the rendering style: every key must occur (as repr or str),
+    in order."""
+    pos = 0
+    for k in keys:
+        hits = [msg.find(t, pos) for t in (repr(k), str(k)) if t and msg.find(t, pos) >= 0]
+        if not hits:
+            return False
+        i = min(hits)
+        pos = i + 1
+    return True
+
+
 def render_path(keys):
     return "_" + "".join(f"[{k!r}]" for k in keys)
 
@@ -285,15 +298,13 @@ def check_error(ctx, spec, value, e, fm):
         probs.append(("message_not_text", {"msg": enc(msg)}))
     else:
         if name == "MissingKeyValidationError":
-            want = render_path(keys + [e.missing_key])
+            want_keys = keys + [e.missing_key]
         elif name == "MissingElementValidationError":
-            want = render_path(keys + [e.index])
+            want_keys = keys + [e.index]
         else:
-            want = render_path(keys) if keys else None
-        if want is not None and want not in msg:
-            probs.append(("message_does_not_name_path", {"msg": msg[:300], "expected_fragment": want}))
-        if want is None and " at _" in msg.split("must")[0] and name not in ("MissingKeyValidationError",):
-            probs.append(("message_names_a_path_for_root_error", {"msg": msg[:300]}))
+            want_keys = keys
+        if want_keys and not names_path(msg, want_keys):
+            probs.append(("message_does_not_name_path", {"msg": msg[:300], "expected_path": render_path(want_keys)}))
     return probs
 
 
